@@ -776,3 +776,124 @@ func genC11(r *rand.Rand, n int, tier string) []string {
 	}
 	return out
 }
+
+// ---------------------------------------------------------------------------
+// stream c11.variant: variant/2 and renamedCopy called directly (hooks VerifVariant, VerifRenamedCopy)
+//   payload:  v | T1 | T2      impl: true | false
+//             c | T            impl: c(T, Copy) canonicalised by first occurrence
+// ---------------------------------------------------------------------------
+
+func init() {
+	register(&stream{name: "c11.variant", gen: genC11Variant, run: runC11Variant})
+}
+
+func runC11Variant(payload string) string {
+	f := c11Fields(payload)
+	d := newTermDecoder()
+	k := c11MaxVar(f[1:]...)
+	for n := 0; n <= k; n++ {
+		d.variable(n)
+	}
+	dec1 := func(s string) engine.Term {
+		ts, err := d.terms(s)
+		must(err)
+		return ts[0]
+	}
+	switch f[0] {
+	case "v":
+		t1, t2 := dec1(f[1]), dec1(f[2])
+		r := engine.VerifVariant(t1, t2, nil)
+		n1, n2 := map[engine.Variable]bool{}, map[engine.Variable]bool{}
+		c11Vars(t1, nil, n1, 0)
+		c11Vars(t2, nil, n2, 0)
+		nt := 0
+		if len(n1) >= 2 && len(n2) >= 1 {
+			nt = 1
+		}
+		return fmt.Sprintf("%v ### nt=%d op=variant result=%v vars1=%s vars2=%s", r, nt, r, bucket(len(n1)), bucket(len(n2)))
+	case "c":
+		t := dec1(f[1])
+		c, err := engine.VerifRenamedCopy(t, nil)
+		must(err)
+		n1 := map[engine.Variable]bool{}
+		c11Vars(t, nil, n1, 0)
+		nt := 0
+		if len(n1) >= 2 {
+			nt = 1
+		}
+		vn := newVarNamer()
+		return fmt.Sprintf("%s ### nt=%d op=copy vars1=%s", c11Wire(compound("c", t, c), nil, vn.name), nt, bucket(len(n1)))
+	}
+	panic("c11.variant: bad op")
+}
+
+// a random term over variables V0..V(nv-1); returns wire text
+func c11RandTerm(r *rand.Rand, depth, nv int) string {
+	switch k := r.Intn(10); {
+	case k < 3 || depth == 0:
+		if r.Intn(6) == 0 {
+			return pick(r, []string{wA("a"), wA("b"), wI(1), wI(2), wNil})
+		}
+		return wV(r.Intn(nv))
+	case k < 7:
+		return wC(pick(r, []string{"f", "g"}), c11RandTerm(r, depth-1, nv))
+	case k < 9:
+		return wC(pick(r, []string{"f", ",", "-"}), c11RandTerm(r, depth-1, nv), c11RandTerm(r, depth-1, nv))
+	default:
+		return wC("h", c11RandTerm(r, depth-1, nv), c11RandTerm(r, depth-1, nv), c11RandTerm(r, depth-1, nv))
+	}
+}
+
+// rename the variables of a wire term with a map (variables are tokens V<n>)
+func c11RenameWire(t string, m func(int) int) string {
+	toks := strings.Fields(t)
+	for i, tok := range toks {
+		if tok[0] == 'V' {
+			n, _ := strconv.Atoi(tok[1:])
+			toks[i] = wV(m(n))
+		}
+	}
+	return strings.Join(toks, " ")
+}
+
+func genC11Variant(r *rand.Rand, n int, tier string) []string {
+	out := make([]string, 0, n)
+	for i := 0; i < n; i++ {
+		nv := 1 + r.Intn(4)
+		if r.Intn(4) != 0 {
+			nv = 2 + r.Intn(3)
+		}
+		t1 := c11RandTerm(r, 2+r.Intn(3), nv)
+		if r.Intn(5) == 0 {
+			out = append(out, "c | "+t1)
+			continue
+		}
+		var t2 string
+		switch r.Intn(6) {
+		case 0: // a bijective renaming onto new variables
+			perm := r.Perm(nv)
+			t2 = c11RenameWire(t1, func(v int) int { return 10 + perm[v] })
+		case 1: // a permutation of its own variables
+			perm := r.Perm(nv)
+			t2 = c11RenameWire(t1, func(v int) int { return perm[v] })
+		case 2: // a renaming that is not one-to-one (D11: true one way round on the pinned tree)
+			t2 = c11RenameWire(t1, func(v int) int { return 10 + v/2 })
+		case 3: // ... and the other way round
+			t2 = t1
+			t1 = c11RenameWire(t2, func(v int) int { return 10 + v/2 })
+		case 4: // an unrelated term
+			t2 = c11RandTerm(r, 1+r.Intn(3), nv)
+		default: // same shape, one variable replaced by a constant
+			target := r.Intn(nv)
+			toks := strings.Fields(c11RenameWire(t1, func(v int) int { return 10 + v }))
+			for j, tok := range toks {
+				if tok == wV(10+target) && r.Intn(2) == 0 {
+					toks[j] = wA("a")
+				}
+			}
+			t2 = strings.Join(toks, " ")
+		}
+		out = append(out, "v | "+t1+" | "+t2)
+	}
+	return out
+}
